@@ -8,9 +8,9 @@ open Zutil
 
 let zi s = z_of_int (int_of_string s)
 let b01 s = s = "1"
-(* the world id is <compiler> + 10 * <header version>; nelua's target-info probe only sees the compiler
+(* the world id is <compiler> + 10 * <version of the cincdir header> + 100 * <version of the header reached only via --cflags -I>; nelua's target-info probe only sees the compiler
    (unless the heading hash also covers the local headers: Gen.HEADERS_HASHED) *)
-let ccinfo_of (w : z) : z = if hEADERS_HASHED then w else z_of_int (int_of_z w mod 10)
+let ccinfo_of (w : z) : z = z_of_int (int_of_z w mod (if hEADERS_HASHED then 100 else 10))
 let cc_ok (b : built) = let ((code, _), _) = b in int_of_z code < 900
 
 let parse_inv f =
